@@ -91,8 +91,8 @@ for _n in ("__add__", "__radd__", "__sub__", "__rsub__", "__mul__", "__rmul__", 
 METHODS = ["bh", "by", "hochberg-bonferroni", "hochberg-sidak", "holm-bonferroni", "holm-sidak"]
 
 
-def rand_family(rng):
-    m = rng.choice([1, 2, 2, 3, 4, 5, 7, 9])
+def rand_family(rng, big=False):
+    m = rng.choice([12, 25, 26, 30, 40, 64]) if big else rng.choice([1, 2, 2, 3, 4, 5, 7, 9])
     alpha = F(rng.choice([1, 5, 10, 20, 50]), 100)
     ps = []
     for _ in range(m):
@@ -328,7 +328,7 @@ def check_public(case):
 def oracle(ctx, deep=False):
     n = ctx.n(400, 12000) * (3 if deep else 1)
     for i in range(n):
-        alpha, ps = rand_family(ctx.rng)
+        alpha, ps = rand_family(ctx.rng, big=(i % 10 == 9))     # every tenth family is large (12 .. 64 hypotheses)
         case = {"method": METHODS[i % len(METHODS)], "alpha": float(alpha), "ps": [float(p) for p in ps],
                 "n_exp": ctx.rng.randint(1, 3), "use_dict": ctx.rng.random() < 0.5, "seed": ctx.rng.randint(0, 10**9)}
         fails = check_public(case)
